@@ -124,7 +124,17 @@ def run(ctx):
     max_iter = int(rng.choice([40, 120, 300]))
     out_iter = int(rng.choice([1, 7, 50, max_iter]))
     out_iter = min(out_iter, max_iter)
-    if name == 'SCML' and rng.random() < 0.5:
+    noisy = (name == 'SCML' and i % 6 == 4)
+    if noisy:
+      # inconsistent triplets (anchor, positive and negative drawn at random among the points) and a short run: checkpoints
+      # at which every weight is zero occur and can be the best ones (objective exactly 1)
+      data = dict(data)
+      npts = len(data['X'])
+      tri = np.array([rng.choice(npts, size=3, replace=False) for _ in range(40)])
+      data['trip_idx'] = tri
+      max_iter, out_iter = 200, 50
+      ctx.hist('noisy_triplets', True)
+    if name == 'SCML' and not noisy and rng.random() < 0.5:
       # few triplets (still >= n_features): mini-batches are drawn with replacement, so batch_size may exceed their number
       data = dict(data)
       m = int(rng.integers(d, 10))
@@ -212,6 +222,30 @@ def run(ctx):
     recs.append(dict(inp=inp, w=wv, kind='metric'))
     ctx.seen((name, repr(sorted(opt.items()))), n_active > 0)
     ctx.sample(dict(estimator=name, params=opt, n_active=n_active, best_w=wv[:6].tolist()), limit=4)
+  # ---- a basis supplied as an array of integer type holds the same numbers as its float copy: same weights, same metric
+  from metric_learn import SCML as _SCML
+  for i in range(12 if thorough else 4):
+    data = fits.make_data(rng, d=int(rng.integers(2, 5)))
+    d = data['d']
+    T = data['X'][data['trip_idx']]
+    E = np.eye(d)
+    Bi = np.vstack([E] + [E[a] - E[b] for a in range(d) for b in range(a + 1, d)] + [E[a] + E[b] for a in range(d) for b in range(a + 1, d)])
+    kwb = dict(max_iter=120, output_iter=30, batch_size=5, beta=1e-5, gamma=5e-3, random_state=int(rng.integers(0, 100)))
+    ctx.count('integer_basis', 1)
+    try:
+      with warnings.catch_warnings():
+        warnings.simplefilter('ignore')
+        ref = _SCML(basis=Bi.astype(float), **kwb).fit(T)
+        outs = [(dt, _SCML(basis=Bi.astype(dt), **kwb).fit(T)) for dt in ('int64', 'int32', 'float32')]
+    except Exception as ex:
+      ctx.fail_input('fit_runs', 'SCML with an integer-valued basis array raises %s' % type(ex).__name__, dict(basis=Bi.tolist()), observed=str(ex)[:200])
+      continue
+    Mr = ref.get_mahalanobis_matrix()
+    for dt, e in outs:
+      M = e.get_mahalanobis_matrix()
+      if M.shape != Mr.shape or np.abs(M - Mr).max() > 1e-5 * (np.abs(Mr).max() + 1e-300) + 1e-12:
+        ctx.fail_input('documented_scheme', 'a basis array of type %s learns another metric than the same numbers as float64' % dt,
+                       dict(basis=Bi.tolist(), dtype=dt, triplets=T.tolist(), params=kwb), observed=M.tolist(), expected=Mr.tolist())
   # ---- fewer basis elements than features, every one of them useful (rows = normalised anchor-to-impostor differences):
   # when ALL supplied bases stay active the transformation still has that many rows, with the warning
   from metric_learn import SCML
